@@ -137,7 +137,8 @@ Init == /\ mode \in Modes /\ hist = <<>>
            \/ mode = "deco" /\ \E sig \in DecoSigs, k1 \in DecoKinds :
                   /\ SessionInit(sig)
                   /\ \/ dkinds = <<k1>>
-                     \/ TwoDecos /\ \E k2 \in Kinds : ClassOf(k2) # ClassOf(k1) /\ dkinds = <<k1, k2>>
+                     \* a second ready-made decorator object: the one with a memo or the one with a fallback of its own
+                     \/ TwoDecos /\ sig = MemoSig /\ \E k2 \in {"cache", "try_zero"} : ClassOf(k2) # ClassOf(k1) /\ dkinds = <<k1, k2>>
 
 CanWrap(target) == /\ Len(objs) < MaxWraps
                    /\ (Len(objs) + 1 >= LastOnlyFrom => target = Len(objs))
